@@ -13,6 +13,7 @@ def main():
              Cond(M, "check_stan", "stan_epochs (warmup <= 3000): valid schedule, fast / doubling-slow / fast pattern, warmup durations sum to the request, one posterior epoch", 300),
              Cond(M, "check_stan_rejects", "stan_epochs raises ValueError for a warmup shorter than 20 or than init + term + base", 120)]
     conds.append(Cond("vf.ch.h_builder", "check_chunk", "EngineBuilder.build: the JIT chunk length handed to the engine divides every epoch duration (three symbolic durations <= 24; math.gcd re-bound to a pure-Python Euclid)", 300))
+    conds.append(Cond("vf.ch.h_builder", "check_set_duration", "EngineBuilder.set_duration(warmup, posterior, term, thinning_posterior, thinning_warmup) configures exactly stan_epochs' schedule for these arguments", 300))
     if chk.tier == "thorough":
         conds += [Cond(M, "check_iff4", "EpochManager accept-iff-valid for schedules of exactly 4 epochs", 1500),
                   Cond(M, "check_stan_wide", "stan_epochs for warmup <= 100000", 900)]
